@@ -89,7 +89,107 @@ theorem loop8888_good (B srcLen dstLen : Nat) :
 
 theorem ceil4 (w : Nat) : w ≤ 4 * ((w + 3) / 4) := by omega
 
-theorem texDecode_good {B srcLen w hgt bs : Nat} (hB : 8 * srcLen ≤ B) (hbs : 8 ≤ bs)
+/-! ### the block decoders: every slice and index stays in range once the decoder's own two
+checks (`data.len() ≥ blocks·bs`, `image.len() ≥ w·h`) have passed -/
+
+theorem copyRows_ok (w imgLen x cw h : Nat) (hx : x + cw ≤ w) (hcw : cw ≤ 4) (himg : w * h ≤ imgLen) :
+    ∀ (r y bo : Nat), y + r ≤ h → bo + 4 * r ≤ 16 → copyRows w imgLen x cw r y bo = Res.ok () := by
+  intro r
+  induction r with
+  | zero => intro y bo _ _; unfold copyRows; rfl
+  | succ r ih =>
+    intro y bo hy hbo
+    unfold copyRows
+    have h1 : (y + 1) * w ≤ h * w := Nat.mul_le_mul_right w (by omega)
+    rw [Nat.succ_mul] at h1
+    have h2 : h * w = w * h := Nat.mul_comm h w
+    rw [if_pos ⟨by omega, by omega⟩]
+    exact ih (y + 1) (bo + 4) (by omega) (by omega)
+
+theorem copyWidth_ok (bx w : Nat) (hbx : 4 * bx < w) :
+    ∃ cw, copyWidth bx w = Res.ok cw ∧ 4 * bx + cw ≤ w ∧ cw ≤ 4 := by
+  unfold copyWidth
+  by_cases h1 : 4 * (bx + 1) > w
+  · rw [if_pos h1]; unfold subC; rw [if_pos (by omega)]
+    exact ⟨_, rfl, by omega, by omega⟩
+  · rw [if_neg h1]; exact ⟨4, rfl, by omega, by omega⟩
+
+theorem copyHeight_ok (byy h : Nat) (hby : 4 * byy < h) :
+    ∃ ch, copyHeight byy h = Res.ok ch ∧ byy * 4 + ch ≤ h ∧ ch ≤ 4 := by
+  unfold copyHeight
+  by_cases h1 : 4 * (byy + 1) > h
+  · rw [if_pos h1]; unfold subC; rw [if_pos (by omega)]
+    exact ⟨_, rfl, by omega, by omega⟩
+  · rw [if_neg h1]; exact ⟨4, rfl, by omega, by omega⟩
+
+theorem copyBlock_ok (bx byy w h imgLen : Nat) (hbx : 4 * bx < w) (hby : 4 * byy < h)
+    (himg : w * h ≤ imgLen) : copyBlock bx byy w h imgLen = Res.ok () := by
+  unfold copyBlock
+  obtain ⟨cw, e1, c1, c2⟩ := copyWidth_ok bx w hbx
+  obtain ⟨ch, e2, d1, d2⟩ := copyHeight_ok byy h hby
+  rw [e1, Res.ok_bind, e2, Res.ok_bind]
+  exact copyRows_ok w imgLen (4 * bx) cw h c1 c2 himg ch (byy * 4) 0 d1 (by omega)
+
+theorem blockRow_ok (dataLen bs w h imgLen byy : Nat) (hby : 4 * byy < h) (himg : w * h ≤ imgLen) :
+    ∀ (k bx off : Nat), 4 * (bx + k) < w + 4 → off + bs * k ≤ dataLen →
+      blockRow dataLen bs w h imgLen byy k bx off = Res.ok (off + bs * k) := by
+  intro k
+  induction k with
+  | zero => intro bx off _ _; unfold blockRow; simp
+  | succ k ih =>
+    intro bx off hb ho
+    unfold blockRow
+    rw [Nat.mul_succ] at ho
+    rw [if_pos (by omega)]
+    rw [copyBlock_ok bx byy w h imgLen (by omega) hby himg]
+    simp only [Res.ok]
+    rw [ih (bx + 1) (off + bs) (by omega) (by omega)]
+    rw [Nat.mul_succ]
+    congr 1; omega
+
+theorem blockRows_ok (dataLen bs w h imgLen nbx : Nat) (hnbx : 4 * nbx < w + 4) (himg : w * h ≤ imgLen) :
+    ∀ (j byy off : Nat), 4 * (byy + j) < h + 4 → off + (bs * nbx) * j ≤ dataLen →
+      blockRows dataLen bs w h imgLen nbx j byy off = Res.ok () := by
+  intro j
+  induction j with
+  | zero => intro byy off _ _; unfold blockRows; rfl
+  | succ j ih =>
+    intro byy off hb ho
+    unfold blockRows
+    rw [Nat.mul_succ] at ho
+    rw [blockRow_ok dataLen bs w h imgLen byy (by omega) himg nbx 0 off (by omega) (by omega)]
+    simp only [Res.ok]
+    exact ih (byy + 1) (off + bs * nbx) (by omega) (by omega)
+
+theorem bcDecode_good {B : Nat} (dataLen w h imgLen bs : Nat) (hw : w ≤ 65535) (hh : h ≤ 65535 * 65535)
+    (hbs : bs ≤ 16) : Good B (bcDecode dataLen w h imgLen bs) := by
+  unfold bcDecode
+  have a1 : (w + 3) / 4 ≤ 16384 := by omega
+  have a2 : (h + 3) / 4 ≤ 1073709057 := by omega
+  have a3 : (w + 3) / 4 * ((h + 3) / 4) ≤ 16384 * 1073709057 := Nat.mul_le_mul a1 a2
+  apply Good.bind (good_mulC (by unfold USIZEMAX U64MAX; omega)); intro t ht
+  obtain ⟨ht1, _⟩ := mulC_ok ht
+  have a4 : t * bs ≤ (16384 * 1073709057) * 16 := by rw [ht1]; exact Nat.mul_le_mul a3 hbs
+  apply Good.bind (good_mulC (by unfold USIZEMAX U64MAX; omega)); intro need hn
+  obtain ⟨hn1, _⟩ := mulC_ok hn
+  split
+  · exact good_fail _
+  · next hd =>
+    have a5 : w * h ≤ 65535 * (65535 * 65535) := Nat.mul_le_mul hw hh
+    apply Good.bind (good_mulC (by unfold USIZEMAX U64MAX; omega)); intro px hp
+    obtain ⟨hp1, _⟩ := mulC_ok hp
+    split
+    · exact good_fail _
+    · next hi =>
+      have e : bs * ((w + 3) / 4) * ((h + 3) / 4) = (w + 3) / 4 * ((h + 3) / 4) * bs := by
+        rw [Nat.mul_comm bs, Nat.mul_assoc, Nat.mul_comm bs, ← Nat.mul_assoc]
+      rw [hn1, ht1] at hd
+      rw [hp1] at hi
+      rw [blockRows_ok dataLen bs w h imgLen ((w + 3) / 4) (by omega) (by omega) ((h + 3) / 4) 0 0
+        (by omega) (by rw [e]; omega)]
+      exact good_ok _ _
+
+theorem texDecode_good {B srcLen w hgt bs : Nat} (hB : 8 * srcLen ≤ B) (hbs : 8 ≤ bs) (hbs2 : bs ≤ 16)
     (hw : w ≤ 65535) (hh : hgt ≤ 65535 * 65535) :
     Good B (texDecode srcLen w hgt bs) := by
   unfold texDecode
@@ -110,6 +210,7 @@ theorem texDecode_good {B srcLen w hgt bs : Nat} (hB : 8 * srcLen ≤ B) (hbs : 
   have h6 : w * hgt ≤ 65535 * (65535 * 65535) := Nat.mul_le_mul hw hh
   have h5 : n * 4 ≤ ISIZEMAX := by unfold ISIZEMAX; omega
   apply Good.bind' (good_vecAlloc h5 (by omega)); intro _
+  apply Good.bind' (bcDecode_good srcLen w hgt n bs hw hh hbs2); intro _
   exact good_vecAlloc h5 (by omega)
 
 theorem texBody_good {B srcLen : Nat} (h : TexHeader) (hB : 8 * srcLen + 8 ≤ B)
@@ -154,7 +255,7 @@ theorem texBody_good {B srcLen : Nat} (h : TexHeader) (hB : 8 * srcLen + 8 ≤ B
     · -- BC1 / BC3 / BC5
       apply Good.bind (good_mulC (by unfold USIZEMAX U64MAX; omega)); intro hgt hhg
       obtain ⟨hhg1, _⟩ := mulC_ok hhg
-      apply texDecode_good (by omega) (by split <;> omega) hw (by omega)
+      apply texDecode_good (by omega) (by split <;> omega) (by split <;> omega) hw (by omega)
 
 /-- `Texture::from_existing` (repaired): no fault, allocations within the budget, for every input -/
 theorem tex_good (b : Bytes) : Good (budget b.length) (tex b) := by
